@@ -460,6 +460,45 @@ def job_calibrate(res):
         res.validated += 1
     res.obs.append(Ob('the store/notify model and the native boost::program_options agree on %d concrete command line / config file scenarios (every bound variable, return value)' % len(cases), 'holds', kind='witness' if False else 'property', key='calibration'))
 
+def job_main_exit(res):
+    """main()'s handling of what parse() says: under-constrained run of main's real IR from its entry; parse() is an event that returns false / returns true / throws an exception derived from std::exception"""
+    import mainloop
+    bld = mainloop.main_build(); mod = load_module(bld, ['main'])
+    res.funcs['main'] = fn_lines(mod, 'main')
+    def run(behaviour):
+        def h_parse(ex, st, fr, a, ins):
+            st.events.append(('parse', behaviour))
+            if behaviour == 'throws':
+                obj = ex.malloc(st, 64); vt = ex.malloc(st, 64); ex.store(st, obj, I64, vt); raise CxxThrow(obj, '_ZTISt11logic_error')      # boost::program_options::error derives from std::logic_error
+            return 1 if behaviour == 'true' else 0
+        def h_go(ex, st, fr, a, ins): raise PathEnd('continues past option parsing')
+        def h_typeid(ex, st, fr, a, ins):
+            n = ex.tinfo_name(a[0]); return ex.typeid_for(n) if n else 0
+        ex, paths, dm = mainloop.uc_run(mod, 'main', [z3.BitVec('argc', 32), mainloop.OPtr('argv')], overrides={'vfps::ProgramOptions::parse(': h_parse, 'vfps::ProgramOptions::getOutFile': h_go, '__cxa_begin_catch': ext_cxa_begin_catch, 'llvm.eh.typeid.for': h_typeid})
+        res.paths += len(paths); res.instrs += sum(p.nins for p in paths)
+        return ex, paths, dm
+    for beh, want in (('false', 'returns 0 (nothing is simulated)'), ('throws', 'prints to std::cerr and returns a failure status'), ('true', 'goes on to the simulation set-up')):
+        ex, paths, dm = run(beh)
+        bad = [p for p in paths if p.kind == 'error']
+        if bad: raise Unsupported('main entry, parse %s: %s' % (beh, bad[0].why))
+        hit = [p for p in paths if any(e[0] == 'parse' for e in p.events)]
+        if not hit: raise Unsupported('main entry: no path reaches ProgramOptions::parse')
+        ok = True; detail = ''
+        for p in hit:
+            after = p.events[[i for i, e in enumerate(p.events) if e[0] == 'parse'][0] + 1:]
+            names = [dm.get(e[0], str(e[0])) for e in after]
+            if beh == 'false':
+                good = p.kind == 'done' and isinstance(p.retval, int) and p.retval == 0 and not any(('PhaseSpace' in n or 'HDF5File' in n or 'SourceMap' in n or 'ElectricField' in n) for n in names)
+            elif beh == 'throws':
+                printed = any('basic_ostream' in n or 'ostream' in n for n in names)
+                good = p.kind == 'done' and isinstance(p.retval, int) and p.retval != 0 and printed
+            else:
+                good = p.kind == 'ended' and 'continues' in p.why
+            if not good: ok = False; detail = '%s ret=%r %s events after parse: %s' % (p.kind, getattr(p, 'retval', None), getattr(p, 'why', ''), names[:6])
+        res.obs.append(Ob('main(): when ProgramOptions::parse %s, main %s (%d paths from main\'s entry)' % ({'false': 'returns false', 'throws': 'throws (unknown option, malformed value)', 'true': 'returns true'}[beh], want, len(hit)),
+                          'holds' if ok else 'violated', key='main-exit-' + beh, detail=detail))
+    witness(res, 'main entry explored', [], z3.BoolVal(True))
+
 def replayer(bld):
     bld = parse_build()
     def rp(path, c):
@@ -496,7 +535,7 @@ def get_replayer(): return replayer(None)
 
 def main(tier):
     chk = Check('C20', tier, '4/C20')
-    jobs = [(job_registry, ()), (job_calibrate, ())]
+    jobs = [(job_registry, ()), (job_calibrate, ()), (job_main_exit, ())]
     for scen in ('cfg', 'nocfg'):
         for sm in (('none', 'cmd', 'cfg', 'both') if scen == 'cfg' else ('none', 'cmd')): jobs.append((job_parse, (scen, sm)))
     jobs.append((job_parse, ('missing', 'none')))
